@@ -471,20 +471,20 @@ PROPS = {
         "thorough": {"timeout": 7000, "maxpaths": 40000, "partial_ok_all": True},
     },
     "C11": {
-        "pkgs": [MOD + "/tcpassembly"],
-        "static": [("tcpassembly", "c10.go"), ("tcpassembly", "c12.go")],
-        "bounds": "tcpassembly: histories of <= 2 (quick) / 3 (thorough) segments over two connections with symbolic SYN/FIN/RST flags, symbolic sequence offset 0..5 and payload length 0..2, optional age-based flush with symbolic cut-off after each, per-connection page limit none/1/2, final FlushAll; audited at every step: completion count per stream, late data, pages in use, live connections, page limit",
-        "outside": "package reassembly's lifecycle (its delivery order is covered by C09); long histories; many connections; multi-page packets",
-        "quick": {"timeout": 1200, "units": "verif_C11_lifecycle", "params": "verif_C11_lifecycle:k=1..2", "maxpaths": 6000, "partial_ok_all": True},
-        "thorough": {"timeout": 6000, "units": "verif_C11_lifecycle", "params": "verif_C11_lifecycle:k=1..3"},
+        "pkgs": [MOD + "/tcpassembly", MOD + "/reassembly"],
+        "static": [("tcpassembly", "c10.go"), ("tcpassembly", "c12.go"), ("reassembly", "c09.go"), ("reassembly", "c12r.go"), ("reassembly", "c11r.go")],
+        "bounds": "reassembly: histories of <= 2 (quick) / 3 (thorough) segments in either direction of one connection with symbolic SYN/FIN/RST, optional FlushCloseOlderThan with symbolic cut-off, final FlushAll; tcpassembly: histories of <= 2 (quick) / 3 (thorough) segments over two connections with symbolic SYN/FIN/RST flags, symbolic sequence offset 0..5 and payload length 0..2, optional age-based flush with symbolic cut-off after each, per-connection page limit none/1/2, final FlushAll; audited at every step: completion count per stream, late data, pages in use, live connections, page limit",
+        "outside": "long histories; many connections; multi-page packets; page limits in package reassembly",
+        "quick": {"timeout": 1200, "units": "verif_C11_(lifecycle|reassembly_lifecycle)", "params": "verif_C11_.*lifecycle:k=1..2", "maxpaths": 6000, "partial_ok_all": True},
+        "thorough": {"timeout": 6000, "units": "verif_C11_(lifecycle|reassembly_lifecycle)", "params": "verif_C11_.*lifecycle:k=1..3", "maxpaths": 60000, "partial_ok_all": True},
     },
     "C12": {
-        "pkgs": [MOD + "/tcpassembly"],
-        "static": [("tcpassembly", "c10.go"), ("tcpassembly", "c12.go")],
-        "bounds": "tcpassembly: two assembler goroutines sharing one pool, one packet each (SYN and data of the same direction, or of an unrelated connection), factory and stream callbacks yield; all interleavings at lock/callback granularity with <= 2 (quick) / 3 (thorough) preemptions; then FlushAll",
-        "outside": "the Go scheduler and memory model below lock granularity; more goroutines and packets; package reassembly's bidirectional connection table (its getConnection contains a documented FIXME panic for the racing-directions case, not explored here)",
-        "quick": {"timeout": 900, "units": "verif_C12_two_assemblers", "params": "verif_C12.*:preempt=0..2"},
-        "thorough": {"timeout": 3000, "units": "verif_C12_two_assemblers", "params": "verif_C12.*:preempt=0..3"},
+        "pkgs": [MOD + "/tcpassembly", MOD + "/reassembly"],
+        "static": [("tcpassembly", "c10.go"), ("tcpassembly", "c12.go"), ("reassembly", "c09.go"), ("reassembly", "c12r.go")],
+        "bounds": "reassembly: SYN and SYN-ACK of one connection (opposite directions) assembled by two assemblers at once; tcpassembly: two assembler goroutines sharing one pool, one packet each (SYN and data of the same direction, or of an unrelated connection), factory and stream callbacks yield; all interleavings at lock/callback granularity with <= 2 (quick) / 3 (thorough) preemptions; then FlushAll",
+        "outside": "the Go scheduler and memory model below lock granularity; more goroutines and packets",
+        "quick": {"timeout": 900, "units": "verif_C12_(two_assemblers|reassembly_directions)", "params": "verif_C12.*:preempt=0..2"},
+        "thorough": {"timeout": 3000, "units": "verif_C12_(two_assemblers|reassembly_directions)", "params": "verif_C12.*:preempt=0..3"},
     },
     "C13": {
         "pkgs": [MOD + "/ip4defrag", MOD + "/ip6defrag"],
